@@ -39,10 +39,21 @@ RULE = ('seeded generator. Proxy cases: 1-4 classes built with type() (single/mu
         'value or an error (stub result object or the real scales AsyncResult), or against the real MessageDispatcher over '
         'a recording sink whose Open() is complete before the calls, completes after all calls were issued (deferred '
         'dispatch, with and without a call timeout; blocking forms run in greenlets), completes after the calls\' deadline '
-        'or never (the call\'s error is then its TimeoutError). URI cases: tcp URIs rendered from 1-20 (sometimes 60) endpoints (dotted names, IPv4, odd hosts, '
+        'or never (the call\'s error is then its TimeoutError), or fails (before the calls / after they were issued); '
+        'self-audit dimensions: two client instances of the one generated class with their own dispatchers (calls '
+        'interleaved, completion of the two Open()s in both orders); the dispatcher calling back into a client from inside '
+        'DispatchMethodCall or from inside get(); completion callbacks of pending results that call the client again; '
+        'pending results settled only after they were returned (async form must hand them back unsettled, blocking form '
+        'blocks); sinks replying after AsyncProcessRequest returned; errors of 7 kinds incl. BaseException subclasses, '
+        'gevent.Timeout, StopIteration, the scales TimeoutError; DispatcherClose / calls on the closed client / '
+        'DispatcherOpen again; the same object passed twice (also once by keyword), equal-but-not-identical arguments, '
+        '255-300 positional arguments, the empty keyword name, 255-300 character names, an interface with no members. '
+        'URI cases: tcp URIs rendered from 1-20 (sometimes 60) endpoints (dotted names, IPv4, odd hosts, '
         'ports 0..10^20, scheme case variants), zk URIs (hosts with/without ports, path, optional #name, optional query), '
         'foreign schemes, and mutated/malformed URIs (missing/extra colons, signs, underscores and blanks in ports, '
-        'brackets, leading blanks, tabs, non-ASCII). non-trivial = a proxy case with at least one forwarded call, or a URI '
+        'brackets, leading blanks, tabs, non-ASCII); every URI is parsed twice by the same parser (same answer), every static '
+        'provider is read twice, 30% go through Scales.NewBuilder(...).SetUri, 30% after the same parser handled other good '
+        'and bad URIs; 255/256/257/1000 endpoints and 255..65536-character hosts occasionally (URIs above 20 kB: monitor only). non-trivial = a proxy case with at least one forwarded call, or a URI '
         'that was accepted; distinct by canonical JSON of (case, observation)')
 TRUSTED = ['the case specification -> class construction in harness/props/c20.py (type(), exec of generated def statements)',
            'classification of a looked-up attribute by the class that owns it in type(proxy).__mro__',
@@ -80,20 +91,25 @@ class _Pending(object):
 
   def __init__(self, value=None, error=None):
     self.value, self.error, self.gets = value, error, 0
+    self.hook = None
 
   def get(self, *a, **k):
     self.gets += 1
+    h, self.hook = self.hook, None
+    if h is not None:
+      h()                      # re-entrancy: the caller's code runs inside get()
     if self.error is not None:
       raise self.error
     return self.value
 
 
 class _StubDispatcher(object):
-  """Records what the proxy hands over; same call signature as MessageDispatcher.DispatchMethodCall."""
+  """Records what the proxy hands over; same call signature as MessageDispatcher.DispatchMethodCall.
+  Every expected call is scripted ({'id', 'kind', 'obj', 'hook'}); the script may call back into a proxy."""
 
   def __init__(self):
     self.calls = []
-    self.next = None
+    self.queue = []
     self.opened = self.closed = 0
 
   def Open(self):
@@ -104,11 +120,15 @@ class _StubDispatcher(object):
     self.closed += 1
 
   def DispatchMethodCall(self, method, args, kwargs, timeout=None):
-    self.calls.append((method, args, kwargs, timeout))
-    kind, obj = self.next
-    if kind == 'raise':
-      raise obj
-    return obj
+    sc = self.queue.pop(0) if self.queue else None
+    self.calls.append((method, args, kwargs, timeout, sc['id'] if sc else None))
+    if sc is None:
+      raise _Err('unscripted dispatch')
+    if sc.get('hook') is not None:
+      sc['hook']()             # re-entrancy: the dispatcher calls back into a proxy before it returns
+    if sc['kind'] == 'raise':
+      raise sc['obj']
+    return sc['obj']
 
 
 class _Val(object):
@@ -120,6 +140,28 @@ class _Val(object):
 
 class _Err(Exception):
   pass
+
+
+class _BaseErr(BaseException):
+  pass
+
+
+ERR_KINDS = ['exc', 'exc', 'base', 'gtimeout', 'stopiter', 'keyerr', 'stimeout']
+
+
+def _mk_err(kind, tag):
+  if kind == 'base':
+    return _BaseErr(tag)
+  if kind == 'gtimeout':
+    import gevent
+    return gevent.Timeout()
+  if kind == 'stopiter':
+    return StopIteration(tag)
+  if kind == 'keyerr':
+    return KeyError(tag)
+  if kind == 'stimeout':
+    return _S['ScalesTimeoutError']()
+  return _Err(tag)
 
 
 class _FakeKazoo(object):
@@ -157,19 +199,32 @@ def setup():
 
   class CountingAsyncResult(AsyncResult):
     gets = 0
+    hook = None
+
+    in_get = False
 
     def get(self, *a, **k):
+      if self.in_get:            # gevent's blocking get() re-enters get(block=False) once the result is there
+        return AsyncResult.get(self, *a, **k)
       self.gets += 1
-      return AsyncResult.get(self, *a, **k)
+      h, self.hook = self.hook, None
+      if h is not None:
+        h()
+      self.in_get = True
+      try:
+        return AsyncResult.get(self, *a, **k)
+      finally:
+        self.in_get = False
 
   class RecSink(ClientMessageSink):
-    """Terminal sink: records the MethodCallMessage and answers as scripted."""
+    """Terminal sink: records the MethodCallMessage and answers as scripted.  Calls may arrive in any order
+    (deferred dispatch, several greenlets): each carries a token object that selects its answer."""
 
     def __init__(self, open_ar=None):
       super(RecSink, self).__init__()
       self.calls = []
       self.next = None
-      self.script = {}           # token object -> answer, for calls that are dispatched later
+      self.script = {}           # token object -> (kind, obj, 'inline' | 'later')
       self.open_ar = open_ar     # None: Open() completes at once; else the harness completes it (or never does)
 
     @property
@@ -184,19 +239,25 @@ def setup():
 
     def AsyncProcessRequest(self, sink_stack, msg, stream, headers):
       self.calls.append((msg.method, msg.args, msg.kwargs, None))
-      kind, obj = self.next or ('value', None)
+      kind, obj, when = (self.next or ('value', None)) + ('inline',)
+      try:
+        vals = list(msg.args) + list(msg.kwargs.values())
+      except Exception:
+        vals = []
+      tok = next((a for a in vals if isinstance(a, _Val) and isinstance(a.i, tuple) and a.i[0] == 'tok'), None)
       if self.script:
-        # calls dispatched later (after Open() completed) may arrive in any order: each carries a token
-        try:
-          vals = list(msg.args) + list(msg.kwargs.values())
-        except Exception:
-          vals = []
-        tok = next((a for a in vals if isinstance(a, _Val) and isinstance(a.i, tuple) and a.i[0] == 'tok'), None)
-        kind, obj = self.script.get(tok, ('error', _Err('call without its token')))
-      if kind == 'value':
-        sink_stack.AsyncProcessResponseMessage(MethodReturnMessage(obj))
+        kind, obj, when = self.script.get(tok, ('error', _Err('call without its token'), 'inline'))
+
+      def respond():
+        if kind == 'value':
+          sink_stack.AsyncProcessResponseMessage(MethodReturnMessage(obj))
+        else:
+          sink_stack.AsyncProcessResponseMessage(MethodReturnMessage(error=obj))
+      if when == 'later':
+        import gevent
+        gevent.spawn_later(0.001, respond)      # the reply arrives after AsyncProcessRequest returned
       else:
-        sink_stack.AsyncProcessResponseMessage(MethodReturnMessage(error=obj))
+        respond()
 
     def AsyncProcessResponse(self, sink_stack, context, stream, msg):
       raise NotImplementedError()
@@ -221,7 +282,8 @@ def setup():
       self.c20_started += 1
 
   from scales.message import TimeoutError as ScalesTimeoutError
-  _S.update(SafeKazoo=SafeKazoo, ScalesTimeoutError=ScalesTimeoutError)
+  from scales.core import Scales
+  _S.update(SafeKazoo=SafeKazoo, ScalesTimeoutError=ScalesTimeoutError, Scales=Scales)
   _S.update(core=core, AsyncResult=AsyncResult, CountingAsyncResult=CountingAsyncResult,
             MessageDispatcher=MessageDispatcher, RecProvider=RecProvider, SinkProperties=SinkProperties,
             Static=StaticServerSetProvider, Zk=ZooKeeperServerSetProvider,
@@ -236,7 +298,7 @@ FUNC_TYPES = ('def', 'async', 'lambda', 'static', 'classm', 'bound')
 OTHER_TYPES = ('prop', 'data', 'builtin', 'partial', 'callable', 'class')
 SIGS = [[], ['a'], ['a', 'b'], ['a', 'b=2'], ['a=None'], ['a', '*args'], ['**kw'], ['*args', '**kwargs'],
         ['a', 'b=None', '*args', '**kwargs'], ['*', 'k'], ['a', '*', 'k=3'], ['a', '/', 'b'], ['a', 'b', 'c', 'd=4']]
-KWNAMES = ['a', 'b', 'k', 'x', 'timeout', 'method', 'method_name', 'args', 'kwargs', 'asynchronous', 'ar', 'cls', 'é']
+KWNAMES = ['a', 'b', 'k', 'x', 'timeout', 'method', 'method_name', 'args', 'kwargs', 'asynchronous', 'ar', 'cls', 'é', '']
 RESERVED = ('_dispatcher',)
 NO_PROBE = set(dir(object)) | {'__dict__', '__weakref__', '__module__', '__doc__', '__del__', '__slots__',
                                '__abstractmethods__', '__qualname__', '__name__', '__mro__', '__bases__'}
@@ -244,6 +306,8 @@ NO_PROBE = set(dir(object)) | {'__dict__', '__weakref__', '__module__', '__doc__
 
 def rand_base(r):
   n = r.choice([1, 1, 2, 3, 5, 8])
+  if r.random() < 0.004:
+    n = r.choice([255, 256, 300])      # very long identifiers
   s = r.choice(LETTERS) + ''.join(r.choice(LETTERS + '0123456789_') for _ in range(n - 1))
   k = r.random()
   if k < 0.06:
@@ -323,13 +387,19 @@ def gen_proxy(r, idx):
     elif r.random() < 0.05 and not any(x['attr'] == '__init__' for x in members):
       members.append({'attr': '__init__', 'type': 'def', 'fname': r.choice(['helper', '_setup', 'init']), 'sig': []})
     classes.append({'bases': bases, 'members': members})
-  realdisp = r.random() < 0.12
+  if r.random() < 0.008:
+    classes, names = [{'bases': [], 'members': []}], []      # an interface with nothing to proxy
+  realdisp = r.random() < 0.14
   case = {'kind': 'proxy', 'classes': classes, 'dispatcher': 'real' if realdisp else 'stub',
-          'pending': r.choice(['stub', 'real']), 'build': r.choice(['create', 'create', 'build'])}
+          'pending': r.choice(['stub', 'real']), 'build': r.choice(['create', 'create', 'build']),
+          'two': r.random() < 0.5}           # two client instances of the one generated class, each with its own dispatcher
+  openmode = 'ready'
   if realdisp:
-    # when Open() completes relative to the calls: before them / after all of them were issued (deferred dispatch,
-    # with or without a call timeout) / after their deadline / never
-    case['open'] = r.choice(['ready', 'ready', 'ready', 'late', 'late', 'late', 'late', 'late_notimeout', 'after_deadline', 'never'])
+    # how Open() ends relative to the calls: complete before them / already failed before them / completes (or fails)
+    # after all of them were issued (deferred dispatch; call timeout 10, None or 0) / after their deadline / never
+    openmode = case['open'] = r.choice(['ready', 'ready', 'ready', 'ready_failed', 'late', 'late', 'late', 'late', 'late_notimeout',
+                                        'late_zero', 'late_fail', 'late_fail', 'after_deadline', 'never'])
+    case['open_order'] = r.choice([0, 1])
   # names to look up
   probe = []
   allnames = sorted(set(names))
@@ -347,15 +417,54 @@ def gen_proxy(r, idx):
   probe = [n for n in probe if n not in NO_PROBE and n != '__init__']
   probe = probe + [r.choice(probe) for _ in range(r.choice([0, 2, 5]))] if probe else probe
   r.shuffle(probe)
-  ops = []
-  for n in probe:
-    args = [r.randrange(8) for _ in range(r.choice([0, 0, 1, 1, 2, 3, 4]))]
+
+  def call_spec(n):
+    nargs = r.choice([0, 0, 1, 1, 2, 3, 4])
+    if r.random() < 0.004:
+      nargs = r.choice([255, 256, 300])
+    args = [r.randrange(8) for _ in range(nargs)]
+    if args and r.random() < 0.15:
+      args.append(args[0])               # the same object twice
     kws = r.sample(KWNAMES, r.choice([0, 0, 0, 1, 1, 2, 3]))
     kwargs = [[kw, r.randrange(8)] for kw in kws]
+    if args and kwargs and r.random() < 0.2:
+      kwargs[0][1] = args[0]             # ... and once more by keyword
     d = r.choice(['value', 'value', 'value', 'error', 'error', 'raise'])
     if realdisp and d == 'raise':
       d = 'error'
-    ops.append({'name': n, 'args': args, 'kwargs': kwargs, 'disp': d})
+    op = {'name': n, 'args': args, 'kwargs': kwargs, 'disp': d}
+    if d != 'value':
+      op['err'] = r.choice(ERR_KINDS)
+    if case['two']:
+      op['inst'] = r.choice([0, 1])
+    return op
+  ops = []
+  for n in probe:
+    op = call_spec(n)
+    if realdisp:
+      if r.random() < 0.3:
+        op['reply'] = 'later'            # the sink answers after AsyncProcessRequest returned, not inside it
+      if openmode.startswith('late') and r.random() < 0.3:
+        op['chain'] = True               # the completion callback of the pending result calls the client again
+    else:
+      if op['disp'] != 'raise' and r.random() < 0.2:
+        op['settle'] = 'after'           # the pending result is settled only after DispatchMethodCall returned it
+      if r.random() < 0.12:
+        op['inner'] = call_spec(r.choice(probe))     # re-entrancy: a second call from inside the first
+        op['inner']['where'] = r.choice(['dispatch', 'get'])
+    ops.append(op)
+  if realdisp and openmode == 'ready' and ops and r.random() < 0.45:
+    # second life: Close, calls on the closed client, Open again, more calls
+    i = r.randrange(len(ops) + 1)
+    ctl = {'ctl': 'close'}
+    if case['two']:
+      ctl['inst'] = r.choice([0, 1])
+    ops.insert(i, ctl)
+    if r.random() < 0.8:
+      j = r.randrange(i + 1, len(ops) + 1)
+      ops.insert(j, dict(ctl, ctl='open'))
+      if r.random() < 0.3:
+        ops.insert(r.randrange(j + 1, len(ops) + 1), dict(ctl, ctl='close'))
   case['ops'] = ops
   return case
 
@@ -377,6 +486,8 @@ def rand_host(r):
     return r.choice(['bücher.example', 'ñ', 'хост.рф', '例え.jp'])
   if k < 0.94:
     return ''
+  if k < 0.945:
+    return 'h' * r.choice([255, 256, 65535, 65536])      # very long host names (the longest are compared by the monitor only)
   return r.choice(HOST_PARTS)
 
 
@@ -399,11 +510,22 @@ OTHER_SCHEMES = ['http', 'https', 'file', 'ftp', 'tcps', 'tcp4', 'zks', 'zoo', '
 
 
 def gen_uri(r, idx):
+  c = _gen_uri(r, idx)
+  if r.random() < 0.3:
+    c['via'] = 'builder'
+  if r.random() < 0.3:
+    c['warm'] = [r.choice(WARM_URIS) for _ in range(r.choice([1, 2, 3]))]
+  return c
+
+
+def _gen_uri(r, idx):
   k = r.random()
   if k < 0.40:
     n = r.choice([1, 1, 2, 3, 5, 8, 13, 20, r.randrange(1, 21), r.randrange(1, 21)])
     if r.random() < 0.02:
       n = 60
+    if r.random() < 0.006:
+      n = r.choice([255, 256, 257, 1000])
     return {'kind': 'tcp', 'scheme': case_variant(r, 'tcp'), 'eps': [[rand_host(r), rand_port(r)] for _ in range(n)]}
   if k < 0.60:
     n = r.choice([1, 1, 2, 3, 5])
@@ -577,6 +699,36 @@ def _ids(pool, xs):
   return out
 
 
+def _pool():
+  """Argument values, tracked by identity; 1/5 and 2/7 are equal but not identical."""
+  return [_Val(0), [1], {'k': 2}, tuple(['t', 3]), float(4) + 0.5, [1], 'six' * 2, {'k': 2}]
+
+
+DTIMEOUT = {'ready': 10, 'ready_failed': 10, 'late': 10, 'late_notimeout': None, 'late_zero': 0, 'late_fail': 10,
+            'after_deadline': 0.05, 'never': 0.05}
+
+
+def _classify(p, name, disp, base_cls):
+  inst = getattr(p, '__dict__', {})
+  if name in inst:
+    return 'field' if inst[name] is disp else 'instattr'
+  owner = next((k for k in type(p).__mro__ if name in vars(k)), None)
+  if owner is None:
+    return 'missing'
+  if owner is type(p):
+    return 'call'
+  if owner is base_cls:
+    return 'base'
+  if owner is object:
+    return 'object'
+  return 'own'
+
+
+def _inst_of(insts, op):
+  k = op.get('inst', 0)
+  return insts[k if 0 <= k < len(insts) else 0]
+
+
 def run_proxy(case):
   core = _S['core']
   log = []
@@ -607,123 +759,67 @@ def run_proxy(case):
       pass
   real = case.get('dispatcher') == 'real'
   openmode = case.get('open', 'ready') if real else 'ready'
-  deferred = []
-  open_ar = None
-  if real:
-    if openmode != 'ready':
-      open_ar = _S['AsyncResult']()
-    prov = _S['RecProvider'](open_ar)
-    rec = prov.sink
-    dtimeout = {'late_notimeout': None, 'after_deadline': 0.05, 'never': 0.05}.get(openmode, 10)
-    disp = _S['MessageDispatcher'](iface, prov, dtimeout, {_S['SinkProperties'].Label: 'c20'})
-  else:
-    disp = rec = _StubDispatcher()
+  insts = []
+  for k in range(2 if case.get('two') else 1):
+    open_ar = None
+    if real:
+      if openmode != 'ready':
+        open_ar = _S['AsyncResult']()
+        if openmode == 'ready_failed':
+          open_ar.set_exception(_Err('open failed'))
+      prov = _S['RecProvider'](open_ar)
+      rec = prov.sink
+      disp = _S['MessageDispatcher'](iface, prov, DTIMEOUT.get(openmode, 10), {_S['SinkProperties'].Label: 'c20-%d' % k})
+    else:
+      disp = rec = _StubDispatcher()
+    insts.append({'disp': disp, 'rec': rec, 'open_ar': open_ar, 'closed': False, 'k': k})
   del log[:]
   try:
-    p = proxy_cls(disp)
-    if real:
-      disp.Open()        # (not p.DispatcherOpen(): the interface may declare a method of that name)
+    for it in insts:
+      it['p'] = proxy_cls(it['disp'])
+      if real:
+        it['disp'].Open()        # (not p.DispatcherOpen(): the interface may declare a method of that name)
     obs['ctor'] = 'ok'
   except Exception as e:
     obs['ctor'] = type(e).__name__
     return obs
-  obs['isinstance'] = isinstance(p, iface)
+  obs['isinstance'] = all(isinstance(it['p'], iface) for it in insts)
   base_cls = core._ProxyBase
-  pool = [_Val(0), [1], {'k': 2}, tuple(['t', 3]), float(4) + 0.5, _Val(5), 'six' * 2, bytearray(b'7')]
+  pool = _pool()
+  pending_open = real and openmode not in ('ready', 'ready_failed')
+  deferred = []
   for oi, op in enumerate(case['ops']):
-    name = op['name']
-    o = {}
-    inst = getattr(p, '__dict__', {})
-    if name in inst:
-      o['res'] = 'field' if inst[name] is disp else 'instattr'
-    else:
-      owner = next((k for k in type(p).__mro__ if name in vars(k)), None)
-      if owner is None:
-        o['res'] = 'missing'
-      elif owner is type(p):
-        o['res'] = 'call'
-      elif owner is base_cls:
-        o['res'] = 'base'
-      elif owner is object:
-        o['res'] = 'object'
-      else:
-        o['res'] = 'own'
-    if o['res'] == 'call' and open_ar is not None:
-      deferred.append((oi, op, o))             # issued below, while Open() is still pending
-    elif o['res'] == 'call':
-      value, err = _Val(('value', oi)), _Err('e%d' % oi)
-      args = tuple(pool[i] for i in op['args'])
-      kwargs = dict((k, pool[i]) for k, i in op['kwargs'])
-      d = op['disp']
-      pend = None
-      if real:
-        rec.next = (d, value if d == 'value' else err)
-      elif d == 'raise':
-        rec.next = ('raise', err)
-      else:
-        if case.get('pending') == 'real':
-          pend = _S['CountingAsyncResult']()
-          if d == 'value':
-            pend.set(value)
+    it = _inst_of(insts, op)
+    if op.get('ctl'):
+      o = {'res': 'ctl'}
+      if real and not pending_open:
+        try:
+          if op['ctl'] == 'close':
+            base_cls.DispatcherClose(it['p'])
+            it['closed'] = True
           else:
-            pend.set_exception(err)
-        else:
-          pend = _Pending(value if d == 'value' else None, err if d == 'error' else None)
-        rec.next = ('return', pend)
-      before = len(rec.calls)
-      del log[:]
-      try:
-        if real:
-          import gevent
-          with gevent.Timeout(5):
-            got = getattr(p, name)(*args, **kwargs)
-        else:
-          got = getattr(p, name)(*args, **kwargs)
-        if got is value:
-          o['ret'] = ['value', oi]
-        elif pend is not None and got is pend:
-          o['ret'] = ['pending', oi]
-        elif real and isinstance(got, _S['AsyncResult']):
-          # the dispatcher's own pending result: it must settle as scripted
-          try:
-            v = got.get(timeout=5)
-            o['ret'] = ['pending', oi] if (d == 'value' and v is value) else ['other', 'pending settled with %r' % (v,)]
-          except Exception as e2:
-            ok = d == 'error' and (e2 is err or getattr(e2, 'inner_exception', None) is err)
-            o['ret'] = ['pending', oi] if ok else ['other', 'pending failed with %r' % (e2,)]
-        else:
-          o['ret'] = ['other', repr(got)[:80]]
-      except BaseException as e:
-        if e is err or (real and getattr(e, 'inner_exception', None) is err):
-          o['ret'] = ['raise', oi]
-        else:
-          o['ret'] = ['other', 'raised %s: %s' % (type(e).__name__, str(e)[:80])]
-      new = rec.calls[before:]
-      o['ncalls'] = len(new)
-      o['gets'] = -1 if real else (pend.gets if pend is not None else 0)   # -1: not observable
-      if new:
-        method, a, kw, timeout = new[0]
-        o['method'] = method if isinstance(method, str) else repr(method)
-        o['args_tuple'] = type(a) is tuple
-        o['kwargs_dict'] = type(kw) is dict
-        try:
-          o['args'] = _ids(pool, a)
-        except TypeError:
-          o['args'] = [-2]
-        try:
-          o['kwargs'] = [[k if isinstance(k, str) else repr(k), _ids(pool, [v])[0]] for k, v in kw.items()]
-        except Exception:
-          o['kwargs'] = [['?', -2]]
-        o['timeout_none'] = timeout is None
-      o['own_ran'] = len(log)
+            base_cls.DispatcherOpen(it['p'])
+            it['closed'] = False
+        except Exception as e:
+          o['ctl_exc'] = type(e).__name__
+      obs['probes'].append(o)
+      continue
+    o = {'res': _classify(it['p'], op['name'], it['disp'], base_cls)}
+    if o['res'] == 'call':
+      if pending_open:
+        deferred.append((oi, op, o, it))         # issued below, while Open() is still pending
+      elif real:
+        _call_real(insts, it, op, o, oi, pool, log)
+      else:
+        _call_stub(case, insts, it, op, o, oi, pool, log, base_cls, 0)
     obs['probes'].append(o)
   if deferred:
-    _run_deferred(case, p, rec, open_ar, openmode, pool, deferred, log)
+    _run_deferred(case, insts, openmode, pool, deferred, log)
   return obs
 
 
 def _record(o, pool, rcall):
-  method, a, kw, timeout = rcall
+  method, a, kw, timeout = rcall[:4]
   o['method'] = method if isinstance(method, str) else repr(method)
   o['args_tuple'] = type(a) is tuple
   o['kwargs_dict'] = type(kw) is dict
@@ -738,50 +834,223 @@ def _record(o, pool, rcall):
   o['timeout_none'] = timeout is None
 
 
-def _run_deferred(case, p, rec, open_ar, openmode, pool, deferred, log):
-  """Calls issued while the real dispatcher's Open() is pending.  Blocking forms run in greenlets (they block in
-  get(); the async forms finish at once with the pending result).  Then Open() completes
-  (late*), completes after the calls' deadline (after_deadline) or never does, and every call must end as the
-  property says: the scripted value / error, or the call's own TimeoutError when it was never dispatched."""
+def _call_stub(case, insts, it, op, o, oid, pool, log, base_cls, depth):
+  """One call on a client over the recording dispatcher.  The dispatcher may call back into a client from inside
+  DispatchMethodCall or from inside get() (op['inner']), and may settle the pending result only later."""
+  import gevent
+  value, err = _Val(('value', oid)), _mk_err(op.get('err', 'exc'), 'e%d' % oid)
+  o['id'] = oid
+  args = tuple(pool[i] for i in op['args'])
+  kwargs = dict((k, pool[i]) for k, i in op['kwargs'])
+  d = op['disp']
+  after = op.get('settle') == 'after' and d != 'raise'
+  pend = None
+  sc = {'id': oid, 'hook': None}
+  if d == 'raise':
+    sc.update(kind='raise', obj=err)
+  else:
+    if case.get('pending') == 'real' or after:
+      pend = _S['CountingAsyncResult']()
+      if not after:
+        if d == 'value':
+          pend.set(value)
+        else:
+          pend.set_exception(err)
+    else:
+      pend = _Pending(value if d == 'value' else None, err if d == 'error' else None)
+    sc.update(kind='return', obj=pend)
+  inner = op.get('inner') if depth == 0 else None
+  if inner:
+    iit = _inst_of(insts, inner)
+
+    def hook():
+      io = {'res': _classify(iit['p'], inner['name'], iit['disp'], base_cls)}
+      o['inner'] = io
+      if io['res'] == 'call':
+        _call_stub(case, insts, iit, inner, io, 1000 + oid, pool, log, base_cls, 1)
+    if inner.get('where') == 'dispatch':
+      sc['hook'] = hook
+    elif pend is not None:
+      pend.hook = hook
+  it['rec'].queue.append(sc)
+  before = [len(x['rec'].calls) for x in insts]
+  if depth == 0:
+    del log[:]
+  if after:
+    gevent.spawn_later(0.001, (lambda: pend.set(value)) if d == 'value' else (lambda: pend.set_exception(err)))
+  try:
+    if after:
+      with gevent.Timeout(5):
+        got = getattr(it['p'], op['name'])(*args, **kwargs)
+    else:
+      got = getattr(it['p'], op['name'])(*args, **kwargs)
+    if got is value:
+      o['ret'] = ['value', oid]
+    elif pend is not None and got is pend:
+      o['ret'] = ['pending', oid]
+      if after:
+        o['ready_at_return'] = bool(pend.ready())
+    else:
+      o['ret'] = ['other', repr(got)[:80]]
+  except BaseException as e:        # noqa
+    if e is err:
+      o['ret'] = ['raise', oid]
+    else:
+      o['ret'] = ['other', 'raised %s: %s' % (type(e).__name__, str(e)[:80])]
+  if after and not pend.ready():
+    pend.wait(1)
+  if sc in it['rec'].queue:
+    it['rec'].queue.remove(sc)
+  mine, other = [], 0
+  for x, b in zip(insts, before):
+    rel = [c for c in x['rec'].calls[b:] if c[4] in (oid, None)]
+    if x is it:
+      mine = rel
+    else:
+      other += len(rel)
+  o['ncalls'] = len(mine)
+  o['other_calls'] = other           # calls that reached the dispatcher of ANOTHER client instance
+  o['gets'] = pend.gets if pend is not None else 0
+  if mine:
+    _record(o, pool, mine[0])
+  o['own_ran'] = len(log)
+
+
+def _token_calls(rec, before, token):
+  def has(c):
+    try:
+      return any(a is token for a in list(c[1]) + list(c[2].values()))
+    except Exception:
+      return False
+  return [c for c in rec.calls[before:] if has(c)]
+
+
+def _strip_token(c, token):
+  method, a, kw, t = c[:4]
+  a2 = a[:-1] if (type(a) is tuple and a and a[-1] is token) else a      # the token rode as last positional
+  return (method, a2, kw, t)
+
+
+def _call_real(insts, it, op, o, oid, pool, log):
+  """One call on a client over the real MessageDispatcher whose Open() has ended (completed or failed), or which
+  was closed (second life: DispatcherClose / DispatcherOpen)."""
+  import gevent
+  AR = _S['AsyncResult']
+  value = _Val(('value', oid))
+  d = 'error' if op['disp'] == 'raise' else op['disp']
+  err = _mk_err(op.get('err', 'exc'), 'e%d' % oid)
+  o['id'] = oid
+  token = _Val(('tok', oid))          # last positional argument: tells the sink which call this is
+  it['rec'].script[token] = (d, value if d == 'value' else err, op.get('reply', 'inline'))
+  args = tuple(pool[i] for i in op['args']) + (token,)
+  kwargs = dict((k, pool[i]) for k, i in op['kwargs'])
+  before = [len(x['rec'].calls) for x in insts]
+  closed = o['closed'] = bool(it['closed'])
+  del log[:]
+
+  def is_closed_error(e):
+    return closed and type(e) is Exception and 'not open' in str(e)
+  try:
+    with gevent.Timeout(5):
+      got = getattr(it['p'], op['name'])(*args, **kwargs)
+    if got is value:
+      o['ret'] = ['value', oid]
+    elif isinstance(got, AR):
+      # the dispatcher's own pending result: it must settle as scripted
+      try:
+        v = got.get(timeout=5)
+        o['ret'] = ['pending', oid] if (d == 'value' and v is value) else ['other', 'pending settled with %r' % (v,)]
+      except BaseException as e2:     # noqa
+        if d == 'error' and (e2 is err or getattr(e2, 'inner_exception', None) is err):
+          o['ret'] = ['pending', oid]
+        elif is_closed_error(e2):
+          o['ret'] = ['pending-closed']
+        else:
+          o['ret'] = ['other', 'pending failed with %r' % (e2,)]
+    else:
+      o['ret'] = ['other', repr(got)[:80]]
+  except BaseException as e:          # noqa
+    if e is err or getattr(e, 'inner_exception', None) is err:
+      o['ret'] = ['raise', oid]
+    elif is_closed_error(e):
+      o['ret'] = ['closed']
+    else:
+      o['ret'] = ['other', 'raised %s: %s' % (type(e).__name__, str(e)[:80])]
+  mine = _token_calls(it['rec'], before[it['k']], token)
+  o['ncalls'] = len(mine)
+  o['other_calls'] = sum(len(_token_calls(x['rec'], b, token)) for x, b in zip(insts, before) if x is not it)
+  o['gets'] = -1
+  if mine:
+    _record(o, pool, _strip_token(mine[0], token))
+  o['own_ran'] = len(log)
+
+
+def _run_deferred(case, insts, openmode, pool, deferred, log):
+  """Calls issued while the real dispatchers' Open() is pending.  Blocking forms run in greenlets (they block in
+  get(); the async forms finish at once with the pending result).  Then Open() completes or fails (late*),
+  completes after the calls' deadline (after_deadline) or never does, and every call must end as the property
+  says: the scripted value / error, or the call's own TimeoutError when it was never dispatched.  op['chain']:
+  the completion callback of an async form's pending result calls the client again (re-entrancy)."""
   import gevent
   AR, TE = _S['AsyncResult'], _S['ScalesTimeoutError']
   del log[:]
   issued = []
-  before = len(rec.calls)
-  for oi, op, o in deferred:
-    value, err = _Val(('value', oi)), _Err('e%d' % oi)
+  before = [len(x['rec'].calls) for x in insts]
+  for oi, op, o, it in deferred:
+    value = _Val(('value', oi))
     d = 'error' if op['disp'] == 'raise' else op['disp']
-    token = _Val(('tok', oi))          # last positional argument: tells the sink which call this is
-    rec.script[token] = (d, value if d == 'value' else err)
+    err = _mk_err(op.get('err', 'exc'), 'e%d' % oi)
+    o['id'] = oi
+    token = _Val(('tok', oi))
+    it['rec'].script[token] = (d, value if d == 'value' else err, op.get('reply', 'inline'))
     args = tuple(pool[i] for i in op['args']) + (token,)
     kwargs = dict((k, pool[i]) for k, i in op['kwargs'])
-    meth = getattr(p, op['name'])
+    meth = getattr(it['p'], op['name'])
+    chain = None
+    if op.get('chain') and openmode.startswith('late'):
+      chain = {'value': _Val(('value', 2000 + oi)), 'token': _Val(('tok', 2000 + oi))}
+      it['rec'].script[chain['token']] = ('value', chain['value'], 'inline')
 
-    def blocking(meth=meth, args=args, kwargs=kwargs):
+    def blocking(meth=meth, args=args, kwargs=kwargs, chain=chain, value=value):
       try:
-        return ('ok', meth(*args, **kwargs))
+        r = meth(*args, **kwargs)
       except BaseException as e:      # noqa
         return ('exc', e)
+      if chain is not None and isinstance(r, AR) and r is not value:
+        def cb(_):
+          try:
+            chain['r2'] = meth(pool[0], chain['token'])
+          except BaseException as e:  # noqa
+            chain['exc'] = e
+        r.rawlink(cb)
+      return ('ok', r)
     g = gevent.spawn(blocking)
     gevent.sleep(0)                   # the method runs up to its first blocking point (or to completion)
-    issued.append((oi, op, o, d, value, err, token, g))
+    issued.append((oi, op, o, it, d, value, err, token, chain, g))
   o_early = [x[-1].ready() for x in issued]
-  early_calls = len(rec.calls) - before
-  if openmode in ('late', 'late_notimeout'):
-    open_ar.set(True)
-  elif openmode == 'after_deadline':
+  early_calls = sum(len(x['rec'].calls) - b for x, b in zip(insts, before))
+  order = list(insts) if not case.get('open_order') else list(reversed(insts))
+  if openmode == 'after_deadline':
     gevent.sleep(0.2)
-    open_ar.set(True)
-  gevent.joinall([x[-1] for x in issued], timeout=8)
-  settled = []
-  for k, (oi, op, o, d, value, err, token, g) in enumerate(issued):
+  for x in order:
+    if openmode == 'late_fail':
+      x['open_ar'].set_exception(_Err('open failed'))
+    elif openmode != 'never':
+      x['open_ar'].set(True)
+    gevent.sleep(0)
+  gevent.joinall([x[-1] for x in issued], timeout=4)
+  # one shared budget for all pending results (a changed dispatcher may leave many of them unsettled for ever)
+  ars = [x[-1].value[1] for x in issued if x[-1].ready() and x[-1].value is not None and x[-1].value[0] == 'ok'
+         and isinstance(x[-1].value[1], AR)]
+  if ars:
+    gevent.wait(ars, timeout=4)
+  for k, (oi, op, o, it, d, value, err, token, chain, g) in enumerate(issued):
     o['deferred'] = openmode
     o['gets'] = -1
     o['early_dispatch'] = early_calls > 0
     if not g.ready():
       g.kill(block=False)
-      o['ret'] = ['other', 'still blocked 8 s after Open() completed' if openmode.startswith('late') else 'still blocked after the deadline']
-      settled.append(None)
+      o['ret'] = ['other', 'still blocked 4 s after Open() ended' if openmode.startswith('late') else 'still blocked after the deadline']
       continue
     tag, got = g.value if g.value is not None else ('exc', g.exception)
     how = None               # 'value' / 'error' / 'timeout' / text
@@ -790,8 +1059,13 @@ def _run_deferred(case, p, rec, open_ar, openmode, pool, deferred, log):
       pending = True
       o['async_returned_at_once'] = o_early[k]
       try:
-        v = got.get(timeout=8)
+        v = got.get(block=False)
         how = 'value' if v is value else 'settled with %r' % (v,)
+      except gevent.Timeout as e2:
+        if got.ready():
+          tag, got = 'exc', e2        # (the scripted error was a gevent.Timeout)
+        else:
+          how = 'never settled'
       except BaseException as e2:     # noqa
         tag, got = 'exc', e2
     if how is None:
@@ -814,19 +1088,25 @@ def _run_deferred(case, p, rec, open_ar, openmode, pool, deferred, log):
         o['ret'] = ['other', ('pending result ' if pending else '') + how]
     else:
       o['ret'] = ['pending-timeout' if pending else 'timeout'] if how == 'timeout' else ['other', ('pending result ' if pending else '') + how]
-  new = rec.calls[before:]
-  for k, (oi, op, o, d, value, err, token, g) in enumerate(issued):
-    def has(c):
-      try:
-        return any(a is token for a in list(c[1]) + list(c[2].values()))
-      except Exception:
-        return False
-    mine = [c for c in new if has(c)]
+    if chain is not None and pending:
+      gevent.sleep(0)
+      if 'exc' in chain:
+        o['chain'] = 'the call made from the completion callback raised %r' % (chain['exc'],)
+      elif 'r2' not in chain:
+        o['chain'] = 'the completion callback never ran'
+      else:
+        try:
+          r2 = chain['r2']
+          v2 = r2.get(timeout=2) if isinstance(r2, AR) else r2
+          o['chain'] = 'ok' if v2 is chain['value'] else 'the call made from the completion callback gave %r' % (v2,)
+        except BaseException as e3:   # noqa
+          o['chain'] = 'the call made from the completion callback failed with %r' % (e3,)
+  for k, (oi, op, o, it, d, value, err, token, chain, g) in enumerate(issued):
+    mine = _token_calls(it['rec'], before[it['k']], token)
     o['ncalls'] = len(mine)           # never / after_deadline: 0 (a call that timed out waiting for Open() is C01's)
+    o['other_calls'] = sum(len(_token_calls(x['rec'], b, token)) for x, b in zip(insts, before) if x is not it)
     if mine:
-      method, a, kw, t = mine[0]
-      a2 = a[:-1] if (type(a) is tuple and a and a[-1] is token) else a      # the token rode as last positional
-      _record(o, pool, (method, a2, kw, t))
+      _record(o, pool, _strip_token(mine[0], token))
     o['own_ran'] = len(log)
 
 
@@ -847,41 +1127,77 @@ def case_uri(case):
   return case['uri']
 
 
+WARM_URIS = ['tcp://warm1:1,warm2:2', 'zk://warmzk:2181/warm/path#warmname', 'http://warm', 'tcp://bad', 'tcp://w:1,w:1', 'ZK://W/']
+
+
+def _observe_provider(core, prov, count_clients=True):
+  Zk = _S['Zk']
+  if isinstance(prov, _S['Static']):
+    servers = prov.GetServers()
+    eps = []
+    typed = type(servers) is list
+    for s in servers:
+      ep = s.service_endpoint
+      eps.append([ep.host, ep.port])
+      typed = typed and type(ep.port) is int and isinstance(s, core.ScalesUriParser.Server) and \
+          isinstance(ep, core.ScalesUriParser.Endpoint)
+    o = {'type': 'static', 'eps': eps, 'typed': typed}
+    # a provider is read many times (every balancer, every re-open): the second read must say the same
+    try:
+      again = [[s.service_endpoint.host, s.service_endpoint.port] for s in prov.GetServers()]
+    except Exception as e:
+      again = 'raised %s' % type(e).__name__
+    o['reread_same'] = again == eps
+    return o
+  if isinstance(prov, Zk):
+    o = {'type': 'zk', 'path': prov._zk_path, 'name': prov.endpoint_name, 'owns': bool(prov._owns_zk_client)}
+    cl = prov._zk_client
+    if isinstance(cl, _FakeKazoo):
+      o['hosts'] = cl.kwargs.get('hosts', cl.args[0] if cl.args else None)
+      o['started'] = cl.started
+      if count_clients:
+        o['nclients'] = len(_FakeKazoo.created)
+    else:
+      o['khosts'] = [[h, p] for h, p in cl.hosts]
+      o['chroot'] = cl.chroot
+      o['started'] = getattr(cl, 'c20_started', 0) + (1 if cl.connected else 0)
+    return o
+  return {'type': 'unknown:' + type(prov).__name__}
+
+
 def run_uri(case):
   core = _S['core']
   Zk = _S['Zk']
   uri = case_uri(case)
   fake = not (case['kind'] == 'zk' and case.get('kazoo') == 'real')
   Zk.KazooClient = _FakeKazoo if fake else _S['SafeKazoo']
-  del _FakeKazoo.created[:]
   try:
+    if case.get('via') == 'builder':
+      builder = _S['Scales'].NewBuilder(_sibling_iface())      # the public way: builder.SetUri(uri)
+      parse = lambda u: builder.SetUri(u).server_set_provider
+    else:
+      parser = core.ScalesUriParser()
+      parse = parser.Parse
+    for w in case.get('warm') or []:     # the same parser / builder has already handled other URIs (good and bad)
+      try:
+        parse(w)
+      except Exception:
+        pass
+    del _FakeKazoo.created[:]
     try:
-      prov = core.ScalesUriParser().Parse(uri)
+      prov = parse(uri)
     except Exception as e:
       return {'exc': type(e).__name__, 'msg': str(e)[:200], 'exact': type(e) is Exception}
-    if isinstance(prov, _S['Static']):
-      servers = prov.GetServers()
-      eps = []
-      typed = type(servers) is list
-      for s in servers:
-        ep = s.service_endpoint
-        eps.append([ep.host, ep.port])
-        typed = typed and type(ep.port) is int and isinstance(s, core.ScalesUriParser.Server) and \
-            isinstance(ep, core.ScalesUriParser.Endpoint)
-      return {'type': 'static', 'eps': eps, 'typed': typed}
-    if isinstance(prov, Zk):
-      o = {'type': 'zk', 'path': prov._zk_path, 'name': prov.endpoint_name, 'owns': bool(prov._owns_zk_client)}
-      cl = prov._zk_client
-      if isinstance(cl, _FakeKazoo):
-        o['hosts'] = cl.kwargs.get('hosts', cl.args[0] if cl.args else None)
-        o['started'] = cl.started
-        o['nclients'] = len(_FakeKazoo.created)
-      else:
-        o['khosts'] = [[h, p] for h, p in cl.hosts]
-        o['chroot'] = cl.chroot
-        o['started'] = getattr(cl, 'c20_started', 0) + (1 if cl.connected else 0)
-      return o
-    return {'type': 'unknown:' + type(prov).__name__}
+    o = _observe_provider(core, prov)
+    # ... and handles the same URI again: same answer
+    try:
+      prov2 = parse(uri)
+      o2 = _observe_provider(core, prov2, count_clients=False)
+      o['again_same'] = all(o2.get(k) == o.get(k) for k in ('type', 'eps', 'path', 'name', 'hosts', 'khosts'))
+    except Exception as e:
+      o['again_same'] = False
+      o['again_exc'] = type(e).__name__
+    return o
   finally:
     Zk.KazooClient = _S['RealKazoo']
 
@@ -925,6 +1241,24 @@ def public_methods(case, mro):
   return pub, unspec
 
 
+def call_pairs(case, obs):
+  """(op, observation, closed) for every looked-up name, calls made from inside another call included; closed =
+  the client's dispatcher had been closed (and not re-opened) by the control ops before this op."""
+  ctl_live = case.get('dispatcher') == 'real' and case.get('open', 'ready') in ('ready', 'ready_failed')
+  closed = {}
+  out = []
+  for op, o in zip(case['ops'], obs.get('probes', [])):
+    k = op.get('inst', 0) if case.get('two') and op.get('inst', 0) in (0, 1) else 0
+    if op.get('ctl'):
+      if ctl_live:
+        closed[k] = op['ctl'] == 'close'
+      continue
+    out.append((op, o, closed.get(k, False)))
+    if op.get('inner') and isinstance(o.get('inner'), dict):
+      out.append((op['inner'], o['inner'], False))
+  return out
+
+
 def monitor_proxy(case, obs):
   v = []
   if obs.get('ctor') != 'ok':
@@ -933,7 +1267,7 @@ def monitor_proxy(case, obs):
     v.append(('proxy-not-instance', 'the client is not an instance of the interface'))
   pub, unspec = public_methods(case, obs['mro'])
   forwarding = pub | unspec
-  for op, o in zip(case['ops'], obs['probes']):
+  for op, o, closed in call_pairs(case, obs):
     name = op['name']
     # which public method, if any, must this name be a form of?
     want = None
@@ -950,6 +1284,17 @@ def monitor_proxy(case, obs):
     if o.get('res') != 'call':
       v.append(('%s-form-missing' % mode, '%s is not a generated method: %s' % (tag, o.get('res'))))
       continue
+    if o.get('other_calls'):
+      v.append(('wrong-dispatcher', '%s reached the dispatcher of another client instance (%s times)' % (tag, o['other_calls'])))
+    if closed:
+      # the client was closed: the dispatcher refuses the call; the blocking form must raise that error, the async
+      # form must raise it or hand back a pending result that fails with it
+      # (a dispatcher that still serves the call is judged like any other call, below)
+      ok = ('closed',) if mode == 'sync' else ('closed', 'pending-closed')
+      if (o.get('ret') or ['?'])[0] in ok:
+        continue
+    if o.get('chain') not in (None, 'ok'):
+      v.append(('async-result', '%s: %s' % (tag, o['chain'])))
     if o.get('deferred') in ('never', 'after_deadline'):
       # issued while Open() was pending and Open() did not complete before the call's deadline: the call's
       # error is its TimeoutError - raised by the blocking form, carried by the pending result of the async form
@@ -1010,6 +1355,10 @@ def monitor_uri(case, obs):
       return [('tcp-rejected', '%r raised %s: %s' % (uri[:120], obs['exc'], obs.get('msg')))]
     if obs.get('type') != 'static':
       return [('tcp-provider', '%r gave %s' % (uri[:120], obs.get('type')))]
+    if not obs.get('reread_same', True):
+      v.append(('tcp-endpoints', '%r: a second GetServers() on the same provider gave a different list' % uri[:120]))
+    if not obs.get('again_same', True):
+      v.append(('tcp-endpoints', '%r: parsing the same URI again gave a different answer (%s)' % (uri[:120], obs.get('again_exc'))))
     if obs['eps'] != case['eps']:
       v.append(('tcp-endpoints', '%r yields %s, listed %s' % (uri[:120], obs['eps'][:5], case['eps'][:5])))
     elif not obs.get('typed'):
@@ -1021,6 +1370,8 @@ def monitor_uri(case, obs):
       return [('zk-rejected', '%r raised %s: %s' % (uri[:120], obs['exc'], obs.get('msg')))]
     if obs.get('type') != 'zk':
       return [('zk-provider', '%r gave %s' % (uri[:120], obs.get('type')))]
+    if not obs.get('again_same', True):
+      v.append(('zk-provider', '%r: parsing the same URI again gave a different answer (%s)' % (uri[:120], obs.get('again_exc'))))
     if obs.get('path') != case['path']:
       v.append(('zk-path', '%r: path %r' % (uri[:120], obs.get('path'))))
     want_name = case['name'] if case.get('name') else None
@@ -1145,7 +1496,8 @@ def _pobs(op, o, nm):
   else:
     rt = '(Raises (-1)%Z)'
   gets = o.get('gets', -1)
-  if o.get('ncalls') != 1 or not o.get('args_tuple') or not o.get('kwargs_dict') or not o.get('timeout_none') or o.get('own_ran'):
+  if o.get('ncalls') != 1 or not o.get('args_tuple') or not o.get('kwargs_dict') or not o.get('timeout_none') or o.get('own_ran') \
+     or o.get('other_calls') or o.get('chain') not in (None, 'ok'):
     gets = -100
   kw = C.lst(['(%s, %s)' % (nm(k), C.zlit(i)) for k, i in o.get('kwargs', [])])
   return '(PCall (CallObs %s %s %s %s %s))' % (nm(o.get('method', '')), _zs(o.get('args', [])), kw, rt, C.zlit(gets))
@@ -1158,9 +1510,10 @@ def to_coq(case, obs):
     nm = _Names()
     ms = C.lst(['(Mem %s %s %s)' % (nm(n), k, nm(f)) for n, k, f in model_members(case, obs['mro'])])
     probes = []
-    for oi, (op, o) in enumerate(zip(case['ops'], obs.get('probes', []))):
-      if o.get('deferred') in ('never', 'after_deadline'):
-        continue               # never dispatched (timed out waiting for Open()): monitor only
+    for n, (op, o, closed) in enumerate(call_pairs(case, obs)):
+      if o.get('deferred') in ('never', 'after_deadline') or (closed and (o.get('ret') or ['?'])[0] in ('closed', 'pending-closed')):
+        continue               # never reached the sink (timed out waiting for Open() / closed client): monitor only
+      oi = o.get('id', n)      # the id the driver gave this call's value / error / pending result
       d = op['disp']
       if d == 'raise' and case.get('dispatcher') == 'real':
         d = 'error'
@@ -1171,6 +1524,8 @@ def to_coq(case, obs):
       probes.append('(%s, %s)' % (pr, _pobs(op, o, nm)))
     return nm.wrap('CProxy (PCase %s %s %s)' % (ms, C.blit(obs.get('ctor') == 'ok'), C.lst(probes)))
   uri = case_uri(case)
+  if len(uri) > 20000:
+    return None                # tens of kilobytes of literal: checked by the monitor only
   if any(ord(c) > 127 and (c.isdecimal() or c.isspace()) for c in uri):
     return None                # int() on non-ASCII digits/blanks is outside the model
   if case['kind'] == 'zk' and case.get('kazoo') == 'real':
@@ -1197,6 +1552,8 @@ def to_coq(case, obs):
     e = '(UZk %s %s %s)' % (_text(obs['hosts']), _text(obs['path']), C.opt(_text(obs['name'])) if obs['name'] is not None else 'None')
   else:
     e = '(UNoHandler [(-3)]%Z)'
+  if not obs.get('reread_same', True) or not obs.get('again_same', True):
+    e = '(UNoHandler [(-4)]%Z)'      # the provider / parser did not give the same answer twice: never what the model says
   if case['kind'] == 'tcp':
     # the model renders the URI itself from the endpoint list (and must agree with the harness' '%s:%d' rendering)
     eps = C.lst(['(%s, %s)' % (_text(h), C.zlit(p)) for h, p in case['eps']])
@@ -1206,7 +1563,7 @@ def to_coq(case, obs):
 
 def nontrivial(case, obs):
   if case['kind'] == 'proxy':
-    return any(o.get('res') == 'call' for o in obs.get('probes', []))
+    return any(o.get('res') == 'call' for _op, o, _c in call_pairs(case, obs))
   return 'exc' not in obs
 
 
@@ -1217,10 +1574,10 @@ def describe(case, obs):
     c['ops'] = c['ops'][:6] + ['...%d more' % (len(case['ops']) - 6)]
   if 'probes' in o and len(o['probes']) > 6:
     o['probes'] = o['probes'][:6] + ['...%d more' % (len(obs['probes']) - 6)]
-  if 'eps' in c and len(c['eps']) > 6:
-    c['eps'] = c['eps'][:6] + ['...']
-  if 'eps' in o and len(o['eps']) > 6:
-    o['eps'] = o['eps'][:6] + ['...']
+  if 'eps' in c:
+    c['eps'] = [[h if len(h) < 80 else h[:40] + '...(%d chars)' % len(h), p] for h, p in c['eps'][:6]] + (['...'] if len(c['eps']) > 6 else [])
+  if 'eps' in o:
+    o['eps'] = [[h if len(h) < 80 else h[:40] + '...(%d chars)' % len(h), p] for h, p in o['eps'][:6]] + (['...'] if len(o['eps']) > 6 else [])
   return {'case': c, 'obs': o}
 
 
@@ -1231,6 +1588,7 @@ def stats(cases, obs):
   uri_out = {}
   feats = {}
   defer = {}
+  dims = {}
   n_alias = n_coll = n_multi = n_initalias = n_real = n_public = n_unspec = n_reserved = 0
   for c, o in zip(cases, obs):
     if not isinstance(o, dict) or 'harness_exc' in o:
@@ -1253,7 +1611,17 @@ def stats(cases, obs):
         if n in RESERVED and m['type'] in FUNC_TYPES:
           n_reserved += 1
       n_coll += sum(1 for n in pub | unspec if n + '_async' in rm)
-      for op, p in zip(c['ops'], o.get('probes', [])):
+      if c.get('two'):
+        dims['two_client_instances'] = dims.get('two_client_instances', 0) + 1
+      if not rm:
+        dims['empty_interface'] = dims.get('empty_interface', 0) + 1
+      if c.get('dispatcher') == 'real':
+        k = 'real_dispatcher_open:' + c.get('open', 'ready')
+        dims[k] = dims.get(k, 0) + 1
+      for op in c['ops']:
+        if op.get('ctl'):
+          dims['control:' + op['ctl']] = dims.get('control:' + op['ctl'], 0) + 1
+      for op, p, closed in call_pairs(c, o):
         res[p.get('res')] = res.get(p.get('res'), 0) + 1
         if p.get('res') == 'call':
           key = '%s/%s' % (op['disp'], (p.get('ret') or ['?'])[0])
@@ -1261,10 +1629,33 @@ def stats(cases, obs):
           if p.get('deferred'):
             key = '%s:%s/%s' % (p['deferred'], op['disp'], (p.get('ret') or ['?'])[0])
             defer[key] = defer.get(key, 0) + 1
+          for name, hit in (('call_on_second_instance', op.get('inst') == 1 and c.get('two')),
+                            ('call_from_inside_DispatchMethodCall', op.get('where') == 'dispatch'),
+                            ('call_from_inside_get', op.get('where') == 'get'),
+                            ('pending_settled_after_return', op.get('settle') == 'after'),
+                            ('async_form_returned_unsettled_pending', p.get('ready_at_return') is False),
+                            ('sink_replied_later', op.get('reply') == 'later' and c.get('dispatcher') == 'real'),
+                            ('completion_callback_called_client_again', p.get('chain') == 'ok'),
+                            ('call_on_closed_client', closed),
+                            ('error_kind:' + op.get('err', 'exc'), op['disp'] != 'value'),
+                            ('same_object_passed_twice', len(set(op['args']) | set(i for _k, i in op['kwargs'])) <
+                             len(op['args']) + len(op['kwargs'])),
+                            ('equal_but_distinct_arguments', any(x in (1, 5) for x in op['args']) and
+                             {1, 5} <= set(op['args']) | set(i for _k, i in op['kwargs'])),
+                            ('ge_255_positional_arguments', len(op['args']) >= 255),
+                            ('empty_keyword_name', any(k == '' for k, _i in op['kwargs'])),
+                            ('name_ge_255_chars', len(op['name']) >= 255)):
+            if hit:
+              dims[name] = dims.get(name, 0) + 1
     else:
       key = c['kind'] + ':' + (o.get('type') or o.get('exc') or '?')
       uri_out[key] = uri_out.get(key, 0) + 1
       u = case_uri(c)
+      for name, hit in (('uri_through_ClientBuilder_SetUri', c.get('via') == 'builder'), ('uri_parser_reused_after_other_uris', bool(c.get('warm'))),
+                        ('uri_ge_255_endpoints', len(c.get('eps') or []) >= 255), ('uri_host_ge_255_chars', any(len(h) >= 255 for h, _p in c.get('eps') or [])),
+                        ('uri_over_64KiB', len(u) > 65536), ('uri_provider_read_twice', 'reread_same' in o), ('uri_parsed_twice', 'again_same' in o)):
+        if hit:
+          dims[name] = dims.get(name, 0) + 1
       for name, hit in (('bracket', '[' in u or ']' in u), ('both_brackets', '[' in u and ']' in u),
                         ('non_ascii', any(ord(ch) > 127 for ch in u)), ('leading_blank', u[:1] <= ' ' and u != ''),
                         ('tab_cr_lf', any(ch in u for ch in '\t\r\n')), ('upper_scheme', u[:1].isupper() or u[1:2].isupper()),
@@ -1278,7 +1669,7 @@ def stats(cases, obs):
           'public_methods': n_public, 'alias_members': n_alias, 'aliases_with_unspecified_publicness': n_unspec,
           'init_aliases': n_initalias, 'foo_foo_async_collisions': n_coll, 'reserved_name_methods': n_reserved,
           'interfaces_with_multiple_inheritance': n_multi, 'interfaces_on_real_dispatcher': n_real,
-          'calls_issued_while_open_pending_by_mode_and_outcome': defer, 'uri_outcomes': uri_out,
+          'calls_issued_while_open_pending_by_mode_and_outcome': defer, 'audit_dimensions': dims, 'uri_outcomes': uri_out,
           'uri_features': feats}
 
 
